@@ -15,7 +15,7 @@ import random
 
 from . import astlib
 from .astlib import ShapeError
-from .common import Check, sx, forbidden_scan
+from .common import Check, sx, forbidden_scan, VERIF
 
 TRUSTED = [
     "Coq 8.16.1 kernel (coqc); vm_compute only in the Example and the two _refuted witnesses",
@@ -49,6 +49,12 @@ _WRAP = ["if self._sym is not None:\n    try:\n        current = self.klong._con
          "    except KeyError:\n        pass",
          "if len(args) != self.fn.arity:\n    raise RuntimeError(f'Klong function called with {len(args)} but expected {self.fn.arity}')",
          "fn_args = [np.asarray(x) if isinstance(x, list) else x for x in args]", "return self.klong.call(KGCall(self.fn.a, [*fn_args], self.fn.arity))"]
+
+
+_MERGE = ["if len(arr) == 0:\n    return arr", "if len(arr) == 1 or not has_none(arr[0]):\n    return arr[0]", "sparse_fa = np.empty(len(arr[0]), dtype=object)",
+          "for n, a in enumerate(arr[0]):\n    sparse_fa[n] = a",
+          "for fa in arr[1:]:\n    i = 0\n    for a in fa:\n        while i < len(sparse_fa) and sparse_fa[i] is not None:\n            i += 1\n"
+          "        if i >= len(sparse_fa):\n            break\n        sparse_fa[i] = a\n        i += 1", "return sparse_fa"]
 
 
 def _body(fn):
@@ -121,9 +127,29 @@ def generate():
         ok = ok and all(p >= 0 for p in pos) and pos == sorted(pos) and pos[-1] == len(ef) - 1 and pos[-2] == len(ef) - 2
         return ok
 
+    def merge_shape():
+        m = astlib.module("klongpy/types.py")
+        return _body(astlib.find_func(m, "merge_projections")) == _MERGE
+
+    def follow():
+        m = astlib.module("klongpy/types.py")
+        si = astlib.find_func(m, "safe_inspect")
+        if ast.unparse(si.args) != "fn, follow_wrapped=True" or _body(si) != [
+                "try:\n    return inspect.signature(fn, follow_wrapped=follow_wrapped).parameters\nexcept ValueError:\n    return {'args': []}"]:
+            raise ShapeError("safe_inspect has not the expected shape")
+        s = astlib.module("klongpy/sys_fn.py")
+        calls = [ast.unparse(c) for c in astlib.calls_in(astlib.find_func(s, "_handle_import"), "safe_inspect")]
+        if calls == ["safe_inspect(item, follow_wrapped=True)"] or calls == ["safe_inspect(item)"]:
+            return True
+        if calls == ["safe_inspect(item, follow_wrapped=False)"]:
+            return False
+        raise ShapeError("_handle_import: unexpected safe_inspect call %r" % calls)
+
     flag("kglambda_args_positional", positional)
     flag("setitem_wraps_existing", wraps)
     flag("interop_shape_ok", shape)
+    flag("merge_projections_positional", merge_shape)
+    flag("import_follows_wrapped", follow)
     for n in notes:
         out.append("(* shape not recognised: %s *)" % n)
     return "\n".join(out) + "\n"
@@ -313,6 +339,223 @@ def run_args_case(case):
         want_res = ["val", acc]
     return {"text": text, "sig": params_sx(sig, klong), "form": form, "inside": inside, "impl_res": res, "impl_log": w.logs_from(0),
             "want_res": want_res, "want_log": want_log, "req": req}
+
+
+# ------------------------------------------------------------------------------------------------ part A2: multi-stage projections
+def stage_chains(arity):
+    """all chains of argument lists (>= 2 lists) ending in a full application; entries are positions or None"""
+    out = []
+
+    def rec(chain, open_holes):
+        for k in range(1, len(open_holes) + 1):
+            for chosen in itertools.combinations(range(len(open_holes)), k):
+                st = [open_holes[j] if j in chosen else None for j in range(len(open_holes))]
+                rest = [h for j, h in enumerate(open_holes) if j not in chosen]
+                if rest:
+                    rec(chain + [st], rest)
+                else:
+                    out.append(chain + [st])
+    rec([], list(range(arity)))
+    return [c for c in out if len(c) >= 2]
+
+
+def staged_cases(rng, tier):
+    pool = [["i", 11], ["i", 22], ["i", 33], ["s", 97, 98], ["l", ["i", 1], ["i", 2]], ["i", -4]]
+    for n in (2, 3):
+        sigs = [s_ for s_ in SIGS if len(s_) == n]
+        for chain in stage_chains(n):
+            for sig in (sigs if tier != "quick" else rng.sample(sigs, 3)):
+                for klong in (False, True):
+                    for inside in (False, True):
+                        args = rng.sample(pool, n)
+                        yield sig, klong, chain, args, inside, False
+                        if len(chain[-1]) == 1:
+                            a2 = [x if x[0] != "l" else ["i", 5] for x in args]
+                            yield sig, klong, chain, a2, inside, True
+
+
+def run_staged_case(case):
+    sig, klong, chain, args, inside, each = case
+    w = World()
+    w.k["pa"] = w.make(1, sig, klong)
+
+    def arglist(st):
+        return "(" + ";".join("" if h is None else lit(args[h]) for h in st) + ")"
+    text = []
+    cur = "pa"
+    for i, st in enumerate(chain[:-1]):
+        text.append("s%d::%s%s" % (i, cur, arglist(st)))
+        cur = "s%d" % i
+    last = chain[-1]
+    stages = [[["none"] if h is None else ["some", args[h]] for h in st] for st in chain]
+    if each:
+        v = args[last[0]]
+        final = "%s'[%s %s]" % (cur, lit(v).strip("()"), lit(v).strip("()"))
+        mform = ["stagedeach", stages[:-1], v, v]
+        want_log = [[1] + args, [1] + args]
+        want_res = ["val", ["l", ["pyres", 1] + args, ["pyres", 1] + args]]
+    else:
+        final = cur + arglist(last)
+        mform = ["staged"] + stages
+        want_log = [[1] + args]
+        want_res = ["val", ["pyres", 1] + args]
+    if inside:
+        final = "{0;%s}(7;8;9)" % final
+    text.append(final)
+    try:
+        for t in text:
+            r = w.k(t)
+        res = ["val", w.canon(r)]
+    except Exception:  # noqa
+        res = ["err"]
+    frames = ["frames"]
+    if inside:
+        frames.append([[0, ["data", ["i", 7]]], [1, ["data", ["i", 8]]], [2, ["data", ["i", 9]]]])
+    frames.append([[5, ["py", 1, params_sx(sig, klong)]]])
+    return {"text": text, "sig": params_sx(sig, klong), "form": "stagedeach" if each else "staged", "inside": inside, "impl_res": res,
+            "impl_log": w.logs_from(0), "want_res": want_res, "want_log": want_log, "req": sx(["form", frames, 5, mform])}
+
+
+# ------------------------------------------------------------------------------------------------ part D: imported modules
+MODULE_SRC = '''
+import functools
+TOK = %d
+calls = []
+
+def traced(fn):
+    @functools.wraps(fn)
+    def wrapper(*args, **kwargs):
+        return fn(*args, **kwargs)
+    return wrapper
+
+def _rec(i, args):
+    calls.append((i, tuple(args)))
+    return TOK + len(calls) - 1
+
+def p0():                 return _rec(1, ())
+def p1(a):                return _rec(2, (a,))
+def p2(a, b):             return _rec(3, (a, b))
+def p3(a, b, c):          return _rec(4, (a, b, c))
+def k0(klong):            return _rec(5, ())
+def k1(klong, a):         return _rec(6, (a,))
+def k2(klong, a, b):      return _rec(7, (a, b))
+def k3(klong, a, b, c):   return _rec(8, (a, b, c))
+@traced
+def dp0():                return _rec(9, ())
+@traced
+def dp1(x):               return _rec(10, (x,))
+@traced
+def dp2(x, y):            return _rec(11, (x, y))
+@traced
+def dp3(a, b, c):         return _rec(12, (a, b, c))
+@traced
+def dk1(klong, x):        return _rec(13, (x,))
+@traced
+def dk2(klong, a, b):     return _rec(14, (a, b))
+def q2(y, x):             return _rec(15, (y, x))
+def kwo(a, *, k=1):       return _rec(16, (a,))
+def va(*args):            return _rec(17, args)
+def opt(a=None, b=None):  return _rec(18, tuple(v for v in (a, b) if v is not None))
+def many(a, b, c, d):     return _rec(19, (a, b, c, d))
+@traced
+def dk3(klong, x, y, z):  return _rec(20, (x, y, z))
+
+IDS = dict(p0=1, p1=2, p2=3, p3=4, k0=5, k1=6, k2=7, k3=8, dp0=9, dp1=10, dp2=11, dp3=12, dk1=13, dk2=14, q2=15, kwo=16, va=17, opt=18, many=19, dk3=20)
+klongpy_exports = {n: globals()[n] for n in IDS}
+klongpy_exports["calls"] = calls
+''' % TOK
+
+IN_DOMAIN = {"p0": 0, "p1": 1, "p2": 2, "p3": 3, "k0": 0, "k1": 1, "k2": 2, "k3": 3, "dp0": 0, "dp1": 1, "dp2": 2, "dp3": 3, "dk1": 1, "dk2": 2,
+             "q2": 2, "kwo": 1, "dk3": 3}
+OTHERS = {"va": None, "opt": None}      # wildcard by design: modelled, not judged by the property text
+
+
+def module_world(how, workdir, n):
+    """a fresh interpreter that imported the instrumented module through .py or .pyf"""
+    import inspect
+    import os
+    import sys
+    name = "c09mod_%d_%s_%d" % (os.getpid(), how, n)
+    path = os.path.join(workdir, name + ".py")
+    with open(path, "w") as f:
+        f.write(MODULE_SRC)
+    w = World()
+    if how == "py":
+        w.k('.py("%s")' % path)
+    else:
+        names = sorted(IN_DOMAIN) + sorted(OTHERS) + ["many", "calls"]
+        w.k('.pyf("%s";[%s])' % (path, ";".join('"%s"' % x for x in names)))
+    mod = sys.modules[name]
+    w.log = w.k["calls"]
+    items = {}
+    for fname, iid in mod.IDS.items():
+        fn = getattr(mod, fname)
+        ps = []
+        for pn, p_ in inspect.signature(fn, follow_wrapped=True).parameters.items():
+            kind = {p_.POSITIONAL_ONLY: "posonly", p_.POSITIONAL_OR_KEYWORD: "pos", p_.VAR_POSITIONAL: "varpos", p_.KEYWORD_ONLY: "kwonly", p_.VAR_KEYWORD: "varkw"}[p_.kind]
+            ps.append([pn if pn in ("x", "y", "z", "klong") else "other", 1 if pn == "args" else 0, kind, 0 if p_.default is p_.empty else 1])
+        items[fname] = ["item", iid, 1 if hasattr(fn, "__wrapped__") else 0, ps]
+    sys.modules.pop(name, None)
+    return w, items
+
+
+def registered(w, fname, iid):
+    from klongpy.core import KGSym, KGLambda
+    try:
+        e = w.k._context[KGSym(fname)]
+    except KeyError:
+        return ["unbound"]
+    if isinstance(e, KGLambda):
+        return ["lam", iid, 0 if e._wildcard else len(e.args), 1 if e._provide_klong else 0, 1 if e._wildcard else 0]
+    return ["unregistered"]
+
+
+def module_cases(rng, tier, workdir):
+    """(world, name, statements, model request, prescribed log/result or None, description)"""
+    vals = [["i", 11], ["i", 22], ["i", 33]]
+    out = []
+    for n, how in enumerate(("py", "pyf")):
+        w, items = module_world(how, workdir, n)
+        for fname in sorted(IN_DOMAIN) + sorted(OTHERS):
+            iid = items[fname][1]
+            r = IN_DOMAIN.get(fname)
+            judged = r is not None
+            ar = r if judged else rng.randint(1, 2)
+            a = vals[:ar]
+            forms = [("direct", ["direct"] + a, "%s(%s)" % (fname, ";".join(lit(x) for x in a)), [[iid] + a], ["val", ["pyres", iid] + a])]
+            if ar >= 2:
+                forms.append(("proj", ["proj", [["some", x] for x in a[:-1]] + [["none"]], a[-1]], "prj(%s)" % lit(a[-1]), [[iid] + a], ["val", ["pyres", iid] + a]))
+            if ar == 1:
+                forms.append(("each", ["each"] + vals, "%s'[11 22 33]" % fname, [[iid, v] for v in vals], ["val", ["l"] + [["pyres", iid, v] for v in vals]]))
+            if ar == 2:
+                acc = ["pyres", iid, vals[0], vals[1]]
+                forms.append(("over", ["over"] + vals, "%s/[11 22 33]" % fname, [[iid, vals[0], vals[1]], [iid, acc, vals[2]]], ["val", ["pyres", iid, acc, vals[2]]]))
+            for form, mform, text, wl, wr in forms:
+                for inside in (False, True):
+                    pre = ["prj::%s(%s;)" % (fname, ";".join(lit(x) for x in a[:-1]))] if form == "proj" else []
+                    stmt = "{(0*(x+y+z));%s}(7;8;9)" % text if inside else text
+                    frames = ["frames"]
+                    if inside:
+                        frames.append([[0, ["data", ["i", 7]]], [1, ["data", ["i", 8]]], [2, ["data", ["i", 9]]]])
+                    frames.append([])
+                    req = sx(["iform", frames, items[fname], 5, mform])
+                    out.append((w, fname, iid, pre + [stmt], req, (wl, wr) if judged else None, how, form, inside))
+        out.append((w, "many", items["many"][1], [], sx(["iform", ["frames", []], items["many"], 5, ["direct"]]), None, how, "register", False))
+    return out
+
+
+def run_module_case(case):
+    w, fname, iid, stmts, req, want, how, form, inside = case
+    start = len(w.log)
+    res = None
+    try:
+        r = None
+        for t in stmts:
+            r = w.k(t)
+        res = ["val", w.canon(r)] if stmts else None
+    except Exception:  # noqa
+        res = ["err"]
+    return {"reg": registered(w, fname, iid), "res": res, "log": w.logs_from(start)}
 
 
 # ------------------------------------------------------------------------------------------------ part B: histories
@@ -554,7 +797,7 @@ def import_cases():
 # ------------------------------------------------------------------------------------------------ run
 def sweep(chk, rng, tier, hist_count, hist_len):
     bad_prop = bad_corr = None
-    cases = [run_args_case(c) for c in args_cases(rng, tier)]
+    cases = [run_args_case(c) for c in args_cases(rng, tier)] + [run_staged_case(c) for c in staged_cases(rng, tier)]
     mouts = chk.run_model([c["req"] for c in cases])
     seen = set()
     for c, mo in zip(cases, mouts):
@@ -596,6 +839,39 @@ def sweep(chk, rng, tier, hist_count, hist_len):
             bad_corr = {"kind": "history-correspondence", "script": h["script"][:bc + 1], "failing_step": bc,
                         "impl": sx(h["impl_canon"][bc]), "model": sx(mo[1 + bc])}
         chk.sample({"history": h["script"][:8]}, limit=6)
+    # imported modules: registration and application of plain / decorated / star-args / keyword-only / 4-parameter functions
+    import os
+    import shutil
+    workdir = os.path.join(VERIF, ".work", "C09-%d" % os.getpid())
+    os.makedirs(workdir, exist_ok=True)
+    try:
+        mcases = module_cases(rng, tier, workdir)
+        mres = [run_module_case(c) for c in mcases]
+    finally:
+        shutil.rmtree(workdir, ignore_errors=True)
+    mouts = chk.run_model([c[4] for c in mcases])
+    for c, r, mo in zip(mcases, mres, mouts):
+        w, fname, iid, stmts, req, want, how, form, inside = c
+        chk.count("evaluations")
+        chk.count("module_" + form)
+        chk.count("distinct_nontrivial")
+        desc = {"kind": "imported", "function": fname, "imported_with": "." + how, "statements": stmts, "call_log": sx(r["log"]), "result": sx(r["res"] or ["none"]),
+                "registered_as": sx(r["reg"])}
+        if want is not None and (r["log"] != want[0] or r["res"] != want[1]) and bad_prop is None:
+            bad_prop = dict(desc, prescribed_log=sx(want[0]), prescribed_result=sx(want[1]), signature=fname, call_form=form,
+                            inside_function_with_x_y_z_7_8_9=inside)
+            bad_prop["kind"] = "arguments"
+        if mo[0] == "unregistered":
+            same = r["reg"] == ["unregistered"]
+        elif mo[0] == "ok":
+            mreg = mo[1]
+            same = r["reg"][0] == "lam" and mreg[0] == "lam" and r["reg"][3:] == mreg[3:] and (mreg[4] == 1 or r["reg"][2] == mreg[2])
+            if stmts:
+                same = same and r["res"] == mo[2] and r["log"] == mo[3][1:]
+        else:
+            raise RuntimeError("model rejected %r: %r" % (req, mo))
+        if not same and bad_corr is None:
+            bad_corr = dict(desc, kind="imported-correspondence", model=sx(mo))
     imps = list(import_cases())
     mouts = chk.run_model([r for _, r, _ in imps])
     for (s, _, impl), mo in zip(imps, mouts):
